@@ -157,6 +157,11 @@ def run(ctx):
         RC.update({k: np.array(v, copy=True) for k, v in initial_cache.items()})
         r = LogRule(n=n, method=m, order=o)
         w = r.rule(rho)
+        # a second request (served from the rule cache, also through another object) must return the same weights
+        w_again = LogRule(n=n, method=m, order=o).rule(rho)
+        if np.shape(w_again) != np.shape(w) or not np.array_equal(np.asarray(w_again), np.asarray(w)):
+            ctx.violation('a rule requested a second time (cache hit) differs from the first answer', method=m, n=n, order=o, step_ratio=rho,
+                          first=np.asarray(w).tolist(), second=np.asarray(w_again).tolist())
         weights[(m, n, o, rho)] = w
         if len(w) != len(wq):
             ctx.mismatch('rule.weights', [m, n, o, rho], len(w), len(wq), 'length')
